@@ -61,16 +61,47 @@ def merge_window_cases(tier, seed):
                "opts": {"perturb": {"p": 0.0, "seed": seed * 71 + j, "files": ["state.py"], "after_sync": {"p": 0.9, "sleep": 0.003}}}}
 
 
+def same_invocation_replay_cases(tier, seed):
+    """An operation that is READY / STARTED / PENDING in the history completes in this invocation, and its branch is then resumed by
+    the in-process timer (a sibling keeps the block running): the second pass over the operation, in the SAME invocation, must be
+    answered from what this invocation recorded."""
+    i = 0
+    for kind in ("par", "map"):
+        for first in ("retry", "retry-most", "wfc", "wait-then-step"):
+            for depth in (0, 1):
+                if first == "wfc":
+                    op = {"k": "wfc", "init": 0, "decisions": [("cont", 1), ("stop",)]}
+                elif first == "wait-then-step":
+                    op = {"k": "step", "val": "plain"}
+                else:
+                    op = {"k": "step", "script": [{"do": "fail", "cls": "ValueError", "msg": "x"}, {"do": "ok", "val": 7}], "retry": {"decisions": [("retry", 1), ("stop",)]},
+                          "sem": "most" if first == "retry-most" else "least"}
+                b0 = ([{"k": "wait", "s": 1}] if first == "wait-then-step" else []) + [op, {"k": "wait", "s": 1}, {"k": "step", "val": "fin"}]
+                fin = "0/b0/%d" % (len(b0) - 1)
+                if depth:
+                    b0 = [{"k": "child", "body": b0}]
+                    fin = "0/b0/0/%d" % (len(b0[0]["body"]) - 1)
+                b1 = [{"k": "wait", "s": 1}, {"k": "step", "script": [{"do": "ok", "val": "busy", "gate": "busy"}]}]
+                brs = [{"body": b0}, {"body": b1}]
+                node = {"k": "par", "branches": brs, "cfg": {"preset": "all_completed"}} if kind == "par" else {"k": "map", "items": [0, 1], "per_item": brs, "body": [], "cfg": None}
+                yield {"label": "c01-same-invocation-replay|%s|%s" % (kind, first), "prog": {"body": [node, {"k": "step", "val": "end"}]}, "prog_seed": 26800 + i,
+                       "pattern": {"p": "plain"}, "max_inv": 14, "world": {"complete": {}, "timers": "all"},
+                       "holds": [{"match": {"kind": "gate", "name": "busy"}, "until": {"event": {"kind": "ret", "path": fin}}}],
+                       "opts": {"idle_s": 0.8, "hang_s": 3.0}}
+                i += 1
+
+
 def explicit_all(tier, seed):
     yield from explicit(tier, seed)
     yield from merge_window_cases(tier, seed)
+    yield from same_invocation_replay_cases(tier, seed)
 
 
 SPEC = Spec(
     PROP,
     level="fault_enumeration",
     rule="random programs (all nine operation kinds, nesting<=3) x {uninterrupted with random pagination/latency, every single "
-    "crash point of a small-program corpus, random multi-crash, asynchronous SIGKILL, yield injection}; at every user-function entry the backend table must not hold that operation terminal (context bodies excepted only under ReplayChildren); every operation terminal at invocation start must deliver the recorded kind of outcome. Explicit slice: child contexts / map / parallel whose result exceeds the checkpoint size limit (recorded as a summary, body traversed again on replay) with steps, retried steps, waits, conditions, callbacks and nested contexts inside, at two nesting depths; blocks whose branches replay 1-30 completed operations each while sibling branches already record new work, under after-sync perturbation of the checkpoint thread. Non-trivial = an operation that was terminal at an invocation's start was delivered again (replayed) in that invocation. "
+    "crash point of a small-program corpus, random multi-crash, asynchronous SIGKILL, yield injection}; at every user-function entry the backend table must not hold that operation terminal (context bodies excepted only under ReplayChildren); every operation terminal at invocation start must deliver the recorded kind of outcome. Explicit slice: child contexts / map / parallel whose result exceeds the checkpoint size limit (recorded as a summary, body traversed again on replay) with steps, retried steps, waits, conditions, callbacks and nested contexts inside, at two nesting depths; blocks whose branches replay 1-30 completed operations each while sibling branches already record new work, under after-sync perturbation of the checkpoint thread; operations that are READY/STARTED in the history, complete in this invocation and are passed a second time in the same invocation (branch resumed by the in-process timer). Non-trivial = an operation that was terminal at an invocation's start was delivered again (replayed) in that invocation. "
     "A class = (program shape hash, interruption pattern, event kind at which the crash landed).",
     deciding=replayed_delivery,
     explicit=explicit_all,
